@@ -11,6 +11,8 @@ def analyse(ctx: CheckContext, p: Program):
     bk.check_zone_sum(ctx, p, r)
     bk.check_name_match(ctx, p, r, [f for f in p.all_funcs if f.module.name == "OpenPinch.analysis.indirect_integration_entry"])
     own.check_utility_ownership(ctx, p, r, r.pipeline_cone())
+    bk.check_zero_seeded_utilities(ctx, p, r)
+    bk.check_fresh_destination(ctx, p, r, "OpenPinch.classes.zone:Zone.import_hot_and_cold_streams_from_sub_zones", "is_new_stream_collection")
 
 
 def run(ctx: CheckContext):
@@ -26,4 +28,7 @@ def run(ctx: CheckContext):
     run_control(ctx, "C09/wrong-attribute-summed", analyse, p.root, ind, "heat_recovery_target += t.heat_recovery_target", "heat_recovery_target += t.heat_recovery_limit", "ACC")
     run_control(ctx, "C09/double-count", analyse, p.root, ind,
                 "        hot_utility_target += t.hot_utility_target\n", "        hot_utility_target += t.hot_utility_target\n        hot_utility_target += t.hot_utility_target\n", "ACC")
+    run_control(ctx, "C09/fresh-collections-on-one-path-only", analyse, p.root, "OpenPinch/classes/zone.py",
+                "            if is_new_stream_collection:\n                self._hot_streams = StreamCollection()\n                self._cold_streams = StreamCollection()\n            hs_dst = self._hot_streams",
+                "            hs_dst = self._hot_streams", "FRESH-DST")
     run_control(ctx, "C09/sum-on-zone-utilities", analyse, p.root, ind, "    cold_utilities = deepcopy(zone.cold_utilities)\n", "    cold_utilities = zone.cold_utilities\n", "OWN")
